@@ -190,7 +190,21 @@ def _member(v, path, out, depth):
 class OpRecord:
     __slots__ = ('tid', 'idx', 'op', 'inv', 'ret', 'res', 'live', 'inp',
                  'cancelled', 'dirty', 'switch_at_inv', 'snap_before',
-                 'snap_after', 'zone', 'aborted', 'version', 'twin')
+                 'snap_after', 'zone', 'aborted', 'version', 'twin',
+                 'ids_before', 'ids_after')
+
+
+def identity_snapshot(live):
+    """(path, id) of every mutable container nested in an encode input:
+    the same objects must still sit in the same places afterwards (ids are
+    compared within one process and never logged)."""
+    obj = live[0] if isinstance(live, tuple) else live
+    out = []
+    if isinstance(obj, lib.body.ContentBody):
+        _member(obj.value, '.value', out, 0)
+    else:
+        mutable_members(obj, '', out)
+    return [(path, i) for i, path in out]
 
 
 def structural_copy(obj):
@@ -396,6 +410,7 @@ class RunB:
         rec.live = rec.inp = rec.twin = None
         rec.version = 0
         rec.snap_before = rec.snap_after = None
+        rec.ids_before = rec.ids_after = None
         rec.switch_at_inv = self.model_switch
         rec.zone = self.zone
         k = op['op']
@@ -444,7 +459,7 @@ class RunB:
                 res = ['tz', op['zone']]
             elif k == 'mutate':
                 src = self.slot(op['ref'])
-                res = ['mutate', self.mutate(src)]
+                res = ['mutate', self.mutate(src, op.get('how', 0))]
             elif k == 'setattr':
                 # the caller assigns an attribute of a frame it holds
                 src = self.slot(op['ref'])
@@ -479,6 +494,7 @@ class RunB:
                     if src.tid != tid:
                         self.count(self.fired, 'shared_object')
                     rec.snap_before = canon_frame(src.live)
+                    rec.ids_before = identity_snapshot(src.live)
                     self.in_lib[tid] = True
                     if src.op['op'] == 'construct':
                         ch = src.op['frame'].get('ch', 0)
@@ -494,6 +510,7 @@ class RunB:
                     finally:
                         self.in_lib[tid] = False
                         rec.snap_after = canon_frame(src.live)
+                        rec.ids_after = identity_snapshot(src.live)
                         # a caller-side mutation by another thread may have
                         # landed while this call was pre-empted
                         rec.dirty = rec.dirty or src.dirty
@@ -527,12 +544,16 @@ class RunB:
                 if built:
                     rec.inp = live
                     rec.snap_before = ops.snapshot_input(op, live)
+                    if k in ('marshal', 'enc'):
+                        rec.ids_before = identity_snapshot(live)
                     self.in_lib[tid] = True
                     try:
                         res, rec.live = ops.apply_op(op, live)
                     finally:
                         self.in_lib[tid] = False
                         rec.snap_after = ops.snapshot_input(op, live)
+                        if k in ('marshal', 'enc'):
+                            rec.ids_after = identity_snapshot(live)
         except Cancelled:
             self.in_lib[tid] = False
             rec.cancelled = True
@@ -565,7 +586,64 @@ class RunB:
             return hashlib.sha1(s.encode()).hexdigest()
         return s
 
-    def mutate(self, src):
+    @staticmethod
+    def _edit_dict(d, how):
+        """In-place edits of a table a caller holds, through the different
+        doors a dict has (a dict subclass that tracks changes in __setitem__
+        sees only some of them)."""
+        h = how % 8
+        if h == 0:
+            d['~mut'] = 1
+            return '[~mut]=1'
+        if h == 1:
+            d.update({'!first': 1})          # sorts before every other key
+            return 'update(!first)'
+        if h == 2:
+            d.setdefault('!0', 'x')
+            return 'setdefault(!0)'
+        if h == 3:
+            d |= {'0mid': True, '~z': None}
+            return '|=(0mid,~z)'
+        if h == 4 and d:
+            k = next(iter(d))                # same contents, new order
+            v = d.pop(k)
+            d[k] = v
+            return 'pop+reinsert(first key)'
+        if h == 5 and len(d) > 1:
+            items = list(d.items())
+            d.clear()
+            d.update(reversed(items))        # same contents, reversed order
+            return 'clear+update(reversed)'
+        if h == 6:
+            for k, v in d.items():
+                if isinstance(v, dict):
+                    v.update({'!in': 2})
+                    return 'nested dict update'
+                if isinstance(v, list):
+                    v.insert(0, {'b': 1, 'a': 2})
+                    return 'nested list insert'
+            d.update([('!pair', 0)])
+            return 'update(pairs)'
+        d['~mut'] = 1
+        d.update({'!first': 1})
+        return '[~mut]=1+update(!first)'
+
+    @staticmethod
+    def _edit_list(lst, how):
+        h = how % 4
+        if h == 0:
+            lst.append('~mut')
+            return 'append'
+        if h == 1:
+            lst.insert(0, '!mut')
+            return 'insert(0)'
+        if h == 2:
+            lst += [{'z': 1, 'a': 2}]
+            return '+=[table]'
+        lst.reverse()
+        return 'reverse'
+
+    def mutate(self, src, how=0):
         """Caller-side change of a result the caller still holds."""
         if src is None or src.live is None:
             return 'skip'
@@ -576,8 +654,8 @@ class RunB:
         if isinstance(o, lib.header.ContentHeader):
             p = o.properties
             if isinstance(p.headers, dict):
-                p.headers['~mut'] = 1
-                return 'header.properties.headers[~mut]'
+                return 'header.properties.headers ' + self._edit_dict(
+                    p.headers, how)
             p.app_id = 'mutated'
             p.headers = {'~mut': 2}
             return 'header.properties.app_id/headers'
@@ -585,11 +663,9 @@ class RunB:
             for s in type(o).__slots__:
                 v = getattr(o, s, None)
                 if isinstance(v, dict):
-                    v['~mut'] = 1
-                    return 'frame.%s[~mut]' % s
+                    return 'frame.%s %s' % (s, self._edit_dict(v, how))
                 if isinstance(v, list):
-                    v.append('~mut')
-                    return 'frame.%s.append' % s
+                    return 'frame.%s %s' % (s, self._edit_list(v, how))
             if type(o).__slots__:
                 s = type(o).__slots__[0]
                 try:
@@ -598,12 +674,13 @@ class RunB:
                     pass
             return 'frame.noop'
         if isinstance(o, dict):
-            o['~mut'] = 1
-            return 'dict[~mut]'
+            return 'dict ' + self._edit_dict(o, how)
         if isinstance(o, list):
-            o.append('~mut')
-            return 'list.append'
+            return 'list ' + self._edit_list(o, how)
         if isinstance(o, bytearray):
+            if how % 2:
+                o[0:0] = b'~'
+                return 'bytearray[0:0]='
             o.extend(b'~')
             return 'bytearray.extend'
         return 'skip'
@@ -744,6 +821,21 @@ class RunB:
                                   else '',
                                   json.dumps(rec.snap_before)[:300],
                                   json.dumps(rec.snap_after)[:300]))
+                elif rec.ids_before is not None and \
+                        rec.ids_after is not None and \
+                        not rec.cancelled and \
+                        rec.ids_after != rec.ids_before:
+                    changed = [p_ for (p_, a), (q_, b) in
+                               zip(rec.ids_before, rec.ids_after)
+                               if p_ == q_ and a != b][:3]
+                    self.fail('C12', 'mutation',
+                              ['input-mutated', 'identity',
+                               k if k != 'enc' else 'enc:' + rec.op['fn']],
+                              'encoding replaced objects inside its input '
+                              '(thread %d op %d %s): the contents compare '
+                              'equal, but the caller\'s structure now '
+                              'holds other table/list objects at %r' % (
+                                  rec.tid, rec.idx, k, changed))
             if rec.twin is not None and not rec.cancelled and \
                     not rec.aborted and rec.res is not None:
                 self.oracle('twin_equal')
